@@ -495,6 +495,45 @@ func collectInlineEdits(repo string, overlay map[string][]byte, known map[string
 			continue
 		}
 		helpers := map[*types.Func]*helperInfo{}
+		// functions of the reference tree that are gone from this package: a new function with a similar name is a
+		// RENAME of one of them (possibly with another signature), not an extracted helper, and stays a function
+		present := map[string]bool{}
+		pkRel := ""
+		for i, f := range pk.Syntax {
+			path := pk.CompiledGoFiles[i]
+			if strings.HasSuffix(path, "_test.go") {
+				continue
+			}
+			rel, _ := filepath.Rel(repo, filepath.Dir(path))
+			pkRel = rel
+			for _, d := range f.Decls {
+				if fd, ok := d.(*ast.FuncDecl); ok {
+					present[funcDeclKey(rel, fd)] = true
+				}
+			}
+		}
+		var goneNames []string
+		for k := range known {
+			if strings.HasPrefix(k, pkRel+"|") && !present[k] && pkRel != "" {
+				goneNames = append(goneNames, k[strings.LastIndex(k, "|")+1:])
+			}
+		}
+		renameOf := func(name string) string {
+			for _, g := range goneNames {
+				n := 0
+				for n < len(g) && n < len(name) && g[n] == name[n] {
+					n++
+				}
+				m := len(g)
+				if len(name) < m {
+					m = len(name)
+				}
+				if n >= 6 && n*10 >= m*6 {
+					return g
+				}
+			}
+			return ""
+		}
 		for i, f := range pk.Syntax {
 			path := pk.CompiledGoFiles[i]
 			if strings.HasSuffix(path, "_test.go") {
@@ -520,6 +559,8 @@ func collectInlineEdits(repo string, overlay map[string][]byte, known map[string
 					h.reason = "variadic"
 				case fd.Name.Name == "init" || fd.Name.Name == "main":
 					h.reason = "init/main"
+				case renameOf(fd.Name.Name) != "":
+					h.reason = "renamed from " + renameOf(fd.Name.Name)
 				}
 				helpers[obj] = h
 			}
